@@ -241,7 +241,24 @@ impl<'a> YamlEmitter<'a> {
                 Ok(())
             }
             Yaml::Value(Scalar::Integer(v)) => Ok(write!(self.writer, "{v}")?),
-            Yaml::Value(Scalar::FloatingPoint(ref v)) => Ok(write!(self.writer, "{v}")?),
+            Yaml::Value(Scalar::FloatingPoint(ref v)) => {
+                // Write a text that the core schema resolves back to this float: the special
+                // values have their own spelling and an integral value needs a fraction.
+                let v = v.into_inner();
+                if v.is_nan() {
+                    write!(self.writer, ".nan")?;
+                } else if v.is_infinite() {
+                    write!(self.writer, "{}", if v > 0.0 { ".inf" } else { "-.inf" })?;
+                } else {
+                    let repr = v.to_string();
+                    if repr.contains('.') {
+                        write!(self.writer, "{repr}")?;
+                    } else {
+                        write!(self.writer, "{repr}.0")?;
+                    }
+                }
+                Ok(())
+            }
             Yaml::Value(Scalar::Null) | Yaml::BadValue => Ok(write!(self.writer, "~")?),
             Yaml::Representation(ref v, style, ref tag) => {
                 if let Some(Tag {
